@@ -85,6 +85,13 @@ def write_kani_tables():
     bricks = brick_color_rows()
     txt = '// generated from the make_brick_color! invocation in rbx_types/src/brick_color.rs by vlib/gen.py\n'
     txt += 'const BRICK_VARIANTS: [crate::BrickColor; %d] = [%s];\n' % (len(bricks), ', '.join('crate::BrickColor::' + b[0] for b in bricks))
+    first = {}
+    for b in bricks:
+        first.setdefault(b[1], b[0])
+    txt += '// (name, first variant carrying that name, own colour) per variant, in declaration order\n'
+    txt += 'const BRICK_ROWS: [(&str, crate::BrickColor, (u8, u8, u8)); %d] = [%s];\n' % (
+        len(bricks), ', '.join('("%s", crate::BrickColor::%s, (%d, %d, %d))' % (b[1], first[b[1]], b[3][0], b[3][1], b[3][2]) for b in bricks))
+    txt += 'const BRICK_NAME_MAX: usize = %d;\n' % max(len(b[1]) for b in bricks)
     C.write_if_changed(os.path.join(C.GEN, 'k13_brick_variants.rs'), txt)
     return {'doc_type_rows': rows, 'font_items': font, 'font_excluded': excluded, 'brick_variants': len(bricks)}
 
@@ -94,4 +101,5 @@ def brick_color_rows():
     macro-generated matches over it, so a guard added in front of the match is not reflected here)."""
     src = open(os.path.join(C.REPO, 'rbx_types/src/brick_color.rs')).read()
     body = src[src.index('make_brick_color!({'):]
-    return [(m.group(1), m.group(2), int(m.group(3))) for m in re.finditer(r'\[\s*(\w+)\s*,\s*"([^"]*)"\s*,\s*(\d+)\s*,', body)]
+    return [(m.group(1), m.group(2), int(m.group(3)), (int(m.group(4)), int(m.group(5)), int(m.group(6))))
+            for m in re.finditer(r'\[\s*(\w+)\s*,\s*"([^"]*)"\s*,\s*(\d+)\s*,\s*\(\s*(\d+)\s*,\s*(\d+)\s*,\s*(\d+)\s*\)', body)]
